@@ -1,6 +1,7 @@
 import BU.Py
 import BU.Model.Bech32
 import BU.Proofs.Bech32Lemmas
+import BU.Proofs.BchLemmas
 /-!
 # C11, continued — substituted characters are detected (the part that is proved)
 
@@ -13,7 +14,7 @@ string has neither a valid bech32 nor a valid bech32m checksum and is rejected. 
 exhaustively by the compiled driver in the thorough tier (`s:bch_exhaustive`).
 -/
 namespace C11
-open Model.Bech32
+open Model.Bech32 Bech32Lemmas BchLemmas
 
 /-- symbol-wise XOR of an error pattern into a word -/
 def xorWord : List Nat → List Nat → List Nat
@@ -30,11 +31,106 @@ def syndrome (c : Consts) (e : List Nat) : Nat :=
     let chk := ((chk &&& 0x1FFFFFF) <<< 5) ^^^ value
     (List.range 5).foldl (fun chk i => chk ^^^ (if (top >>> i) &&& 1 ≠ 0 then c.generator.getD i 0 else 0)) chk) 0
 
+theorem syndrome_eq (c : Consts) (e : List Nat) : syndrome c e = e.foldl (pstep c) 0 := by
+  unfold syndrome pstep gsel
+  rfl
+
+theorem foldl_xorWord (c : Consts) (w e : List Nat) (hl : e.length = w.length) (a b : Nat) :
+    (xorWord w e).foldl (pstep c) (a ^^^ b) = w.foldl (pstep c) a ^^^ e.foldl (pstep c) b := by
+  induction w generalizing e a b with
+  | nil =>
+    cases e with
+    | nil => simp [xorWord]
+    | cons x xs => simp at hl
+  | cons x xs ih =>
+    cases e with
+    | nil => simp at hl
+    | cons y ys =>
+      simp only [xorWord, List.foldl_cons]
+      rw [pstep_lin]
+      exact ih ys (by simpa using hl) _ _
+
+set_option linter.unusedVariables false in
 /-- **linearity**: XOR-ing an error pattern (same length, 5-bit symbols) into a word XORs its syndrome into the polymod -/
 theorem polymod_xor (w e : List Nat) (hl : e.length = w.length) (he : ∀ x ∈ e, x < 32) :
     polymod specConsts (xorWord w e) = polymod specConsts w ^^^ syndrome specConsts e := by
-  sorry
+  rw [polymod_eq, polymod_eq, syndrome_eq]
+  have := foldl_xorWord specConsts w e hl 1 0
+  rwa [Nat.xor_zero] at this
 
+/-! ### error patterns of weight 0, 1, 2 -/
+
+theorem weight_cons (x : Nat) (e : List Nat) : weight (x :: e) = (if x = 0 then 0 else 1) + weight e := by
+  unfold weight
+  rw [List.filter_cons]
+  by_cases h : x = 0
+  · simp [h]
+  · simp [h]; omega
+
+theorem fold_weight_zero (e : List Nat) (h : weight e = 0) (x : Nat) :
+    e.foldl (pstep specConsts) x = S e.length x := by
+  induction e generalizing x with
+  | nil => rfl
+  | cons a e ih =>
+    rw [weight_cons] at h
+    have ha : a = 0 := by
+      by_cases ha : a = 0
+      · exact ha
+      · rw [if_neg ha] at h; omega
+    subst ha
+    rw [List.foldl_cons, ih (by simpa using h), List.length_cons, S_succ]
+    rfl
+
+theorem fold_weight_one (e : List Nat) (h : weight e = 1) (he : ∀ x ∈ e, x < 32) :
+    ∃ k b, k < e.length ∧ 1 ≤ b ∧ b < 32 ∧ e.foldl (pstep specConsts) 0 = S k b := by
+  induction e with
+  | nil => simp [weight] at h
+  | cons a e ih =>
+    rw [weight_cons] at h
+    rw [List.foldl_cons, pstep_zero_left]
+    by_cases ha : a = 0
+    · subst ha
+      obtain ⟨k, b, hk, hb1, hb2, hs⟩ := ih (by simpa using h) (fun x hx => he x (by simp [hx]))
+      exact ⟨k, b, by simp; omega, hb1, hb2, hs⟩
+    · rw [if_neg ha] at h
+      refine ⟨e.length, a, by simp, by omega, he a (by simp), ?_⟩
+      exact fold_weight_zero e (by omega) a
+
+theorem fold_weight_two (e : List Nat) (h : weight e = 2) (he : ∀ x ∈ e, x < 32) :
+    ∃ j k a b, k < j ∧ j < e.length ∧ 1 ≤ a ∧ a < 32 ∧ 1 ≤ b ∧ b < 32 ∧
+      e.foldl (pstep specConsts) 0 = S j a ^^^ S k b := by
+  induction e with
+  | nil => simp [weight] at h
+  | cons x e ih =>
+    rw [weight_cons] at h
+    rw [List.foldl_cons, pstep_zero_left]
+    by_cases hx : x = 0
+    · subst hx
+      obtain ⟨j, k, a, b, hkj, hj, ha1, ha2, hb1, hb2, hs⟩ :=
+        ih (by simpa using h) (fun y hy => he y (by simp [hy]))
+      exact ⟨j, k, a, b, hkj, by simp; omega, ha1, ha2, hb1, hb2, hs⟩
+    · rw [if_neg hx] at h
+      obtain ⟨k, b, hk, hb1, hb2, hs⟩ := fold_weight_one e (by omega) (fun y hy => he y (by simp [hy]))
+      refine ⟨e.length, k, x, b, hk, by simp, by omega, he x (by simp), hb1, hb2, ?_⟩
+      have := foldl_pstep_split specConsts e x 0
+      rw [Nat.xor_zero] at this
+      rw [this, hs]
+      rfl
+
+/-- the syndrome of one or two substituted symbols within 59 positions is neither `0` nor `1 ^^^ M` -/
+theorem syndrome_visible (e : List Nat) (he : ∀ x ∈ e, x < 32) (hlen : e.length ≤ 59)
+    (hw : 1 ≤ weight e ∧ weight e ≤ 2) :
+    e.foldl (pstep specConsts) 0 ≠ 0 ∧ e.foldl (pstep specConsts) 0 ≠ Delta := by
+  have : weight e = 1 ∨ weight e = 2 := by omega
+  rcases this with h | h
+  · obtain ⟨k, b, hk, hb1, hb2, hs⟩ := fold_weight_one e h he
+    rw [hs]
+    exact single_ne k b (by omega) hb1 hb2
+  · obtain ⟨j, k, a, b, hkj, hj, ha1, ha2, hb1, hb2, hs⟩ := fold_weight_two e h he
+    rw [hs]
+    exact double_ne j k a b (by omega) (by omega) (by omega) ha1 ha2 hb1 hb2
+
+set_option linter.unusedVariables false in
 /-- every one- or two-character substitution within the last 59 symbols of a valid word (the whole data part of
 any segwit address of the three networks) is rejected: neither checksum variant verifies any more -/
 theorem detects_up_to_two (hrp : List Char) (data e : List Nat) (spec : Enc)
@@ -42,6 +138,38 @@ theorem detects_up_to_two (hrp : List Char) (data e : List Nat) (spec : Enc)
     (hd : ∀ x ∈ data, x < 32) (he : ∀ x ∈ e, x < 32) (hl : e.length = data.length) (hlen : data.length ≤ 59)
     (hw : 1 ≤ weight e ∧ weight e ≤ 2) :
     verifyChecksum specConsts hrp (xorWord data e) = none := by
-  sorry
+  obtain ⟨hs0, hsD⟩ := syndrome_visible e he (by omega) hw
+  have key : polymod specConsts (hrpExpand hrp ++ xorWord data e)
+      = polymod specConsts (hrpExpand hrp ++ data) ^^^ e.foldl (pstep specConsts) 0 := by
+    rw [polymod_eq, polymod_eq, List.foldl_append, List.foldl_append]
+    have := foldl_xorWord specConsts data e hl (List.foldl (pstep specConsts) 1 (hrpExpand hrp)) 0
+    rwa [Nat.xor_zero] at this
+  unfold verifyChecksum at hv ⊢
+  simp only [] at hv ⊢
+  rw [key]
+  generalize polymod specConsts (hrpExpand hrp ++ data) = P at hv ⊢
+  generalize e.foldl (pstep specConsts) 0 = s at hs0 hsD ⊢
+  rw [Delta_eq] at hsD
+  have hP : P = 1 ∨ P = specConsts.m := by
+    by_cases h1 : P = 1
+    · exact Or.inl h1
+    · rw [if_neg h1] at hv
+      by_cases h2 : P = specConsts.m
+      · exact Or.inr h2
+      · rw [if_neg h2] at hv
+        cases hv
+  have h1 : ¬ (P ^^^ s = 1) := by
+    intro h
+    have hs := xor_cancel h
+    rcases hP with rfl | rfl
+    · exact hs0 (by rw [hs, Nat.xor_self])
+    · exact hsD (by rw [hs, Nat.xor_comm])
+  have h2 : ¬ (P ^^^ s = specConsts.m) := by
+    intro h
+    have hs := xor_cancel h
+    rcases hP with rfl | rfl
+    · exact hsD hs
+    · exact hs0 (by rw [hs, Nat.xor_self])
+  rw [if_neg h1, if_neg h2]
 
 end C11
